@@ -23,6 +23,9 @@ structure St where
   frames : List Frame := [{}]
   decls : List (SysTag × Decl) := []
   tr : Option (PR Inst) := none
+  /-- the same trace on the panic-free acceptor the theorems C01–C04 are stated for
+  (`accepts_toR_iff`); `none` once a `P` event was seen -/
+  rt : Option (RTask Inst) := none
   /-- the crate's `parallel` feature -/
   par : Bool := true
   thr : List (Inst × Char) := []
@@ -108,7 +111,7 @@ def step (st : St) (ws : List String) : St × String :=
       let tl := if mode == "paronly" || mode == "seqonly" then [] else f.b.threadLocal
       let stages := if mode == "tlonly" then [] else sb.stages
       let t := nDispatchTask par stages tl f.bodies []
-      ({ st with tr := some t.toPR, thr := nThreads par stages tl f.threads 'c' [] }, "ok")
+      ({ st with tr := some t.toPR, rt := some t.toR, thr := nThreads par stages tl f.threads 'c' [] }, "ok")
     | [] => (st, "bad-op")
   | ["ev", k, inst, th] =>
     match st.tr with
@@ -119,20 +122,33 @@ def step (st : St) (ws : List String) : St × String :=
       match e with
       | none => (st, "bad-op")
       | some e =>
-        match t.deriv e with
-        | some t' =>
+        -- the panic-free acceptor runs alongside until the first `P`
+        let rt' : Option (Option (RTask Inst)) :=
+          match st.rt with
+          | none => some none
+          | some r =>
+            if k == "P" then some none
+            else match r.deriv (if k == "F" then .F i else .D i) with
+              | some r' => some (some r')
+              | none => none
+        match t.deriv e, rt' with
+        | some t', some rt' =>
           match lookupThread st.thr i, th.toList with
           | some want, [c] =>
-            if want == c then ({ st with tr := some t' }, "ok")
-            else ({ st with tr := some t' }, s!"thread {inst} expected {want} got {c}")
-          | _, _ => ({ st with tr := some t' }, "ok")
-        | none => (st, s!"reject {k} {inst}")
+            if want == c then ({ st with tr := some t', rt := rt' }, "ok")
+            else ({ st with tr := some t', rt := rt' }, s!"thread {inst} expected {want} got {c}")
+          | _, _ => ({ st with tr := some t', rt := rt' }, "ok")
+        | _, _ => (st, s!"reject {k} {inst}")
     | none => (st, "bad-op")
   | ["trace-end"] =>
     match st.tr with
     | some t =>
-      ({ st with tr := none },
-        if t.finalOk false then (if t.hasPanic then "accept panicked" else "accept ok")
+      ({ st with tr := none, rt := none },
+        if t.finalOk false then
+          (if t.hasPanic then "accept panicked"
+           else match st.rt with
+             | some r => if r.nullable then "accept ok" else "reject incomplete"
+             | none => "reject incomplete")
         else "reject incomplete")
     | none => (st, "bad-op")
   | ["lifecycle", what] =>
